@@ -167,4 +167,18 @@ example : (Client.run (Client.init [1, 2, 3]) C02.demoActs).map (fun s => (Clien
   simp [C02.demoActs, Client.run, Client.step, Client.init, Client.newLeft, Client.dedupSorted, Client.ackCap, List.mergeSort,
     List.MergeSort.Internal.splitInTwo, Client.forwardedN, Client.acknowledgedN, Client.consumedOf]
 
+
+/-! ### labelled counters: attributed to the label values of the records that caused them
+
+`SelectMetricKeySet` finds a record's counter set by the length-prefixed merge of its metric key values
+(`Route.mergeKey`, after the repair of F-2) and creates it, with these values as its `key_*` labels, when it is new
+(`C06.route`).  The labels of the counter set a record increments are therefore the record's own values, and the
+counter exported under label values `t` has been incremented once by every record carrying `t` and by no other. -/
+
+/-- **C19 (label attribution).** For every sequence of records and every counter sets created before: the number of
+increments that went to a counter set labelled `t` is the number of records whose metric key values are `t`. -/
+theorem C19_labelled_counter_counts_its_records (recs : List (List Bytes)) (m : C06.PMap) (h : m.WF) (t : List Bytes) :
+    ((C06.routeAll Route.mergeKey m recs).2).count t = recs.count t := by
+  rw [C06.C06_routes_own recs m h]
+
 end C19
